@@ -38,5 +38,5 @@ static __attribute__((noinline)) void do_case(unsigned i) {
 extern "C" void harness_c01() {
   unsigned sel = v_nondet_u32();
   v_assume(sel < NCASES);
-  dispatch<Case, NCASES>(sel);
+  dispatch<CaseW, NCASES>(sel);
 }
